@@ -161,13 +161,17 @@ Allow(e) ==
 \* idempotent is never retried, whatever the policy says.
 Decide(e, d) ==
   LET r == ex[e]
-      mayRetry == cfg.idem \/ NonIdemRetry IN
+      mayRetry == cfg.idem \/ NonIdemRetry
+      \* NonIdemRetry tolerates both behaviours for non-idempotent queries (trace conformance)
+      mayStop == d \in StopDecisions \/ ~cfg.idem IN
   /\ r.pc = "dec"
   /\ d \in DecisionsFor(r.out)
-  /\ CASE d = "retry" /\ mayRetry -> ex' = [ex EXCEPT ![e] = [r EXCEPT !.pc = "ready"]]
-       [] d = "next" /\ mayRetry -> ex' = [ex EXCEPT ![e] = [r EXCEPT !.pc = "pick"]]
-       [] d = "unknown" -> Finish(e, r, Res(0, 0, "unknownretry"))
-       [] OTHER -> Finish(e, r, ThisRes(r))
+  /\ \/ /\ d = "retry" /\ mayRetry
+        /\ ex' = [ex EXCEPT ![e] = [r EXCEPT !.pc = "ready"]]
+     \/ /\ d = "next" /\ mayRetry
+        /\ ex' = [ex EXCEPT ![e] = [r EXCEPT !.pc = "pick"]]
+     \/ /\ mayStop
+        /\ IF d = "unknown" THEN Finish(e, r, Res(0, 0, "unknownretry")) ELSE Finish(e, r, ThisRes(r))
   /\ Emit(Ev("decide", e, 0, 0, d, r.out))
   /\ UNCHANGED <<cfg, ipos, cnt, started, launched, chan, ret, cancelled, returned>>
 
@@ -234,6 +238,9 @@ Next ==
   \/ Terminal /\ UNCHANGED vars
 
 Spec == Init /\ [][Next]_vars
+\* for behaviour dumps: a complete behaviour ends (no stuttering at the end)
+NextDump == IF GateAtomic /\ Urgent THEN UrgentNext ELSE (VisibleNext \/ SilentNext)
+SpecDump == Init /\ [][NextDump]_vars
 FairSpec == Spec /\ WF_vars(Next)
 
 -----------------------------------------------------------------------------
